@@ -467,6 +467,14 @@ Check interp_near_node_bound : forall (m : mesh1 AR R) k (x : R) c,
 Print Assumptions interp_near_node_bound.
 Print Assumptions ex_m2_wf. (* closed; separator for the driver's parser *)
 
+Example interp_near_node_bound_nonvacuous :
+  wf1 ex_imesh /\ spaced snapR (m1_nodes ex_imesh) /\ 2 <= length (m1_nodes ex_imesh) /\ 1 < length (m1_nodes ex_imesh) /\
+  (Rabs (1 - nth 1 (m1_nodes ex_imesh) 0) < snapR)%R /\ 0 < m1_nvars ex_imesh.
+Proof.
+  destruct interp_near_node_nonvacuous as (H1 & H2 & H3 & H4 & H5).
+  repeat (split; [assumption|]). cbn. auto.
+Qed.
+
 Theorem interp_outside_left : forall (m : mesh1 AR R) (x : R),
   spaced snapR (m1_nodes m) -> 1 <= length (m1_nodes m) -> (x + snapR <= nth 0 (m1_nodes m) 0)%R ->
   @interp1 AR snapR m x = Ok (repeat 0%R (m1_nvars m)).
@@ -523,6 +531,28 @@ Print Assumptions interp_total.
 Print Assumptions ex_m2_wf. (* closed; separator for the driver's parser *)
 Example interp_total_nonvacuous : wf1 ex_imesh /\ spaced snapR (m1_nodes ex_imesh) /\ 2 <= length (m1_nodes ex_imesh).
 Proof. destruct MeshInterp.interp_at_node_nonvacuous as (Hs & Hwf & Hn & Hsp & Hk & _). auto. Qed.
+
+(* piecewise-linear interpolation reproduces linear data at EVERY point of the grid range, the
+   snapping windows included (there the neighbouring cell's line is the same line) *)
+Theorem interp_linear_exact : forall (m : mesh1 AR R) (x : R) c (a b : R),
+  wf1 m -> spaced snapR (m1_nodes m) -> 2 <= length (m1_nodes m) -> c < m1_nvars m ->
+  (forall k, k < length (m1_nodes m) -> nth c (nth k (m1_vars m) []) 0%R = (a * nth k (m1_nodes m) 0 + b)%R) ->
+  (nth 0 (m1_nodes m) 0 - snapR < x)%R -> (x < nth (length (m1_nodes m) - 1) (m1_nodes m) 0 + snapR)%R ->
+  exists r, @interp1 AR snapR m x = Ok r /\ nth c r 0%R = (a * x + b)%R.
+Proof. intros m x c a b. exact (MeshInterp2.interp_linear_exact_snapR m x c a b). Qed.
+Check interp_linear_exact : forall (m : mesh1 AR R) (x : R) c (a b : R),
+  wf1 m -> spaced snapR (m1_nodes m) -> 2 <= length (m1_nodes m) -> c < m1_nvars m ->
+  (forall k, k < length (m1_nodes m) -> nth c (nth k (m1_vars m) []) 0%R = (a * nth k (m1_nodes m) 0 + b)%R) ->
+  (nth 0 (m1_nodes m) 0 - snapR < x)%R -> (x < nth (length (m1_nodes m) - 1) (m1_nodes m) 0 + snapR)%R ->
+  exists r, @interp1 AR snapR m x = Ok r /\ nth c r 0%R = (a * x + b)%R.
+Print Assumptions interp_linear_exact.
+Print Assumptions ex_m2_wf. (* closed; separator for the driver's parser *)
+Example interp_linear_exact_nonvacuous :
+  (0 < snapR)%R /\ wf1 ex_lmesh /\ spaced snapR (m1_nodes ex_lmesh) /\ 2 <= length (m1_nodes ex_lmesh) /\ 0 < m1_nvars ex_lmesh /\
+  (forall k, k < length (m1_nodes ex_lmesh) -> nth 0 (nth k (m1_vars ex_lmesh) []) 0%R = (2 * nth k (m1_nodes ex_lmesh) 0 + 1)%R) /\
+  (nth 0 (m1_nodes ex_lmesh) 0 - snapR < 2)%R /\ (2 < nth (length (m1_nodes ex_lmesh) - 1) (m1_nodes ex_lmesh) 0 + snapR)%R /\
+  @interp1 AR snapR ex_lmesh 2%R = Ok [5%R].
+Proof. exact MeshInterp2.interp_linear_exact_nonvacuous. Qed.
 
 (* ------------------------------------------------------------------ more quadrature / storage / reader *)
 
